@@ -50,14 +50,3 @@ func VerifH_C19_AcceptedWithinSupportedSize() {
 	}
 }
 
-func vItoa(n int) string {
-	if n == 0 {
-		return "0"
-	}
-	s := ""
-	for n > 0 {
-		s = string(rune('0'+n%10)) + s
-		n /= 10
-	}
-	return s
-}
